@@ -9,8 +9,9 @@
    ~290 rule bodies (`match_to_lint`, struct rules), the lexer (C02).  Those are reached by the
    failing-input search of harness/src/bin/c01.rs only. *)
 Require Import Base Overlap TokenSeq Pattern PatternCost PatternImpls Tables_patterns GoDirective TokenSeqProofs PatternProofs PatternCostProofs C01History.
+Require Import C01Len C01LenProofs Tables_rulebodies C01RuleBodies C01EndToEnd C01EndToEndProofs.
 (* C02's lexer model and proofs (not imported: its token type has the same name as ours) *)
-Require Lexer LexerProofs.
+Require Lexer LexerProofs Condense.
 
 (* ---- PlainEnglish::parse (the lexer loop every front-end ends in) never panics and fuel |s| suffices:
    imported from C02 (Model/Lexer.v; follows from C02_lex_progress: every sub-lexer that succeeds
@@ -285,6 +286,107 @@ Check C01_pattern_impls_covered :
   List.length pattern_impl_sites = 23 /\ pattern_linter_loop_shape = true.
 Print Assumptions C01_pattern_impls_covered.
 
+(* ====================== phase 3 ======================
+   (1) the F31 class statically.  min_len / max_len (Model/C01Len.v): the least and the greatest length of a NON-ZERO
+   match, computed from the pattern alone; sound against the matcher with no premise at all. *)
+Theorem C01_match_length_bounds : forall leaf oracle src p ts n,
+  matches leaf oracle p ts src = Ok n -> n <> 0 -> min_len p <= n /\ ole n (max_len p).
+Proof. exact matches_len_bounds. Qed.
+Check C01_match_length_bounds : forall leaf oracle src p ts n,
+  matches leaf oracle p ts src = Ok n -> n <> 0 -> min_len p <= n /\ ole n (max_len p).
+Print Assumptions C01_match_length_bounds.
+
+(* what match_to_lint is handed: every range of run_on_chunk lies in the chunk and its length IS the non-zero answer of
+   the rule's pattern on the rest of the chunk *)
+Theorem C01_match_to_lint_gets_matches : forall leaf oracle src p chunk l,
+  run_on_chunk leaf oracle p chunk src = Ok l ->
+  Forall (fun ab => fst ab <= length chunk /\ snd ab <= length chunk /\ fst ab < snd ab /\
+                    matches leaf oracle p (skipn (fst ab) chunk) src = Ok (snd ab - fst ab)) l.
+Proof. exact (fun leaf oracle src p chunk l => roc_ranges_are_matches (fun ts => matches leaf oracle p ts src) chunk (S (length chunk)) 0 l). Qed.
+Check C01_match_to_lint_gets_matches : forall leaf oracle src p chunk l,
+  run_on_chunk leaf oracle p chunk src = Ok l ->
+  Forall (fun ab => fst ab <= length chunk /\ snd ab <= length chunk /\ fst ab < snd ab /\
+                    matches leaf oracle p (skipn (fst ab) chunk) src = Ok (snd ab - fst ab)) l.
+Print Assumptions C01_match_to_lint_gets_matches.
+
+(* for EVERY rule of the generated table (pattern and literal uses read from /repo on this run) and every chunk: each
+   `matched_tokens[k]`, `[a..b]`, `[a..]`, `[len - k]`, `match len { .. _ => panic!() }` of its match_to_lint succeeds
+   on every slice run_on_chunk hands over — no premise on tokens, closures or oracles *)
+Theorem C01_rule_bodies_indices_safe : forall leaf oracle src r, In r rule_table ->
+  forall chunk l, run_on_chunk leaf oracle (r_pat r) chunk src = Ok l ->
+  Forall (fun ab => forall u, In u (r_uses r) -> use_run (slice chunk (fst ab) (snd ab)) u = Ok tt) l.
+Proof. exact rule_bodies_indices_safe. Qed.
+Check C01_rule_bodies_indices_safe : forall leaf oracle src r, In r rule_table ->
+  forall chunk l, run_on_chunk leaf oracle (r_pat r) chunk src = Ok l ->
+  Forall (fun ab => forall u, In u (r_uses r) -> use_run (slice chunk (fst ab) (snd ab)) u = Ok tt) l.
+Print Assumptions C01_rule_bodies_indices_safe.
+
+(* the census of `impl PatternLinter for` sites: classified (20, proved above) + nothing to check + unclassified = all;
+   the unclassified ones BY NAME (expected_unclassified = ["ModalOf"; "ProperNounCapitalizationLinter"], Proofs/C01RuleBodies.v;
+   a new one breaks this theorem and must be looked at) *)
+Theorem C01_rule_bodies_census :
+  List.length rule_table + List.length rules_nothing_to_check + List.length rules_unclassified = rule_impl_count /\
+  map (fun x => fst (fst x)) rules_unclassified = expected_unclassified /\
+  List.length rule_table = 20 /\
+  rule_len_possible rule_table (codes nm_Dashes) 3 = Some true /\ rule_len_possible rule_table (codes nm_Dashes) 4 = Some false /\
+  rule_len_possible rule_table (codes nm_ModalOf) 3 = None.
+Proof. exact rule_census. Qed.
+Check C01_rule_bodies_census :
+  List.length rule_table + List.length rules_nothing_to_check + List.length rules_unclassified = rule_impl_count /\
+  map (fun x => fst (fst x)) rules_unclassified = expected_unclassified /\
+  List.length rule_table = 20 /\
+  rule_len_possible rule_table (codes nm_Dashes) 3 = Some true /\ rule_len_possible rule_table (codes nm_Dashes) 4 = Some false /\
+  rule_len_possible rule_table (codes nm_ModalOf) 3 = None.
+Print Assumptions C01_rule_bodies_census.
+
+(* (2) end to end for plain English: for EVERY text, Unicode tables, pattern of the inductive and dictionary view `abs`
+   that keeps the spans, Document::new_plain_english (C02's model, imported) + iter_chunks + run_on_chunk on every chunk
+   + LongSentences return normally within the fuel the models carry (|s| lexer rounds, |tokens|+2 per RepeatingPattern,
+   |chunk|+1 per run_on_chunk); the ranges are well-formed, the flagged spans lie in the text.  Premises: the closures
+   of the blanket impl and the oracles return on tokens inside the text (monitored). *)
+Theorem C01_plain_english_lint_total : forall abs : Lexer.token -> tok, (forall t, tspan (abs t) = Lexer.tspan t) ->
+  forall leaf oracle s,
+  (forall t i, sstart (tspan t) <= send (tspan t) -> send (tspan t) <= length s -> exists b, leaf i t s = Ok b) ->
+  forall u, oracle_total_on oracle s (D_ordered leaf s) ->
+  forall p, exists ts cs l ls,
+    Condense.document_plain u s = Ok ts /\
+    iter_chunks (map abs ts) = Ok cs /\ concat cs = map abs ts /\
+    lint_plain_english u abs leaf oracle p s = Ok (l, ls) /\
+    Forall2 (fun c x => run_on_chunk leaf oracle p c s = Ok x /\ ranges_ok 0 x (length c)) cs l /\
+    Forall (fun sp => sstart sp <= send sp /\ send sp <= length s) ls.
+Proof. exact lint_plain_english_total. Qed.
+Check C01_plain_english_lint_total : forall abs : Lexer.token -> tok, (forall t, tspan (abs t) = Lexer.tspan t) ->
+  forall leaf oracle s,
+  (forall t i, sstart (tspan t) <= send (tspan t) -> send (tspan t) <= length s -> exists b, leaf i t s = Ok b) ->
+  forall u, oracle_total_on oracle s (D_ordered leaf s) ->
+  forall p, exists ts cs l ls,
+    Condense.document_plain u s = Ok ts /\
+    iter_chunks (map abs ts) = Ok cs /\ concat cs = map abs ts /\
+    lint_plain_english u abs leaf oracle p s = Ok (l, ls) /\
+    Forall2 (fun c x => run_on_chunk leaf oracle p c s = Ok x /\ ranges_ok 0 x (length c)) cs l /\
+    Forall (fun sp => sstart sp <= send sp /\ send sp <= length s) ls.
+Print Assumptions C01_plain_english_lint_total.
+
+(* ... and for the 20 classified rules the literal uses of match_to_lint are in range on every slice, from the TEXT on *)
+Theorem C01_plain_english_rule_bodies : forall abs : Lexer.token -> tok, (forall t, tspan (abs t) = Lexer.tspan t) ->
+  forall leaf oracle s,
+  (forall t i, sstart (tspan t) <= send (tspan t) -> send (tspan t) <= length s -> exists b, leaf i t s = Ok b) ->
+  forall u, oracle_total_on oracle s (D_ordered leaf s) ->
+  forall r, In r rule_table -> exists ts cs l ls,
+    Condense.document_plain u s = Ok ts /\ iter_chunks (map abs ts) = Ok cs /\
+    lint_plain_english u abs leaf oracle (r_pat r) s = Ok (l, ls) /\
+    Forall2 (fun c x => Forall (fun ab => forall us, In us (r_uses r) -> use_run (slice c (fst ab) (snd ab)) us = Ok tt) x) cs l.
+Proof. exact lint_plain_english_rule_bodies. Qed.
+Check C01_plain_english_rule_bodies : forall abs : Lexer.token -> tok, (forall t, tspan (abs t) = Lexer.tspan t) ->
+  forall leaf oracle s,
+  (forall t i, sstart (tspan t) <= send (tspan t) -> send (tspan t) <= length s -> exists b, leaf i t s = Ok b) ->
+  forall u, oracle_total_on oracle s (D_ordered leaf s) ->
+  forall r, In r rule_table -> exists ts cs l ls,
+    Condense.document_plain u s = Ok ts /\ iter_chunks (map abs ts) = Ok cs /\
+    lint_plain_english u abs leaf oracle (r_pat r) s = Ok (l, ls) /\
+    Forall2 (fun c x => Forall (fun ab => forall us, In us (r_uses r) -> use_run (slice c (fst ab) (snd ab)) us = Ok tt) x) cs l.
+Print Assumptions C01_plain_english_rule_bodies.
+
 (* ---- non-vacuity ---- *)
 (* the premises of C01_pattern_bounded hold for "I know the how" with closures / oracles that return,
    and the theorem's conclusion is the interesting one there: TheHowWhy's pattern on the last three
@@ -330,3 +432,28 @@ Example C01_go_and_visible_nonvacuous :
   visible_hull [hs 6 7; hs 7 8; hw 8 10; hs 10 11; hw 11 14] = Ok (mkspan 8 14) /\
   visible_hull [hs 6 7; hs 7 8] = Ok (mkspan 6 8).
 Proof. repeat split; vm_compute; reflexivity. Qed.
+
+(* phase 3, (1): the bounds of six table rows (bounded 2..3, unbounded 3.., 5.., 7..); a use that is NOT below the least
+   match length is rejected by the static test and really panics in the model on a 3-token match *)
+Example C01_rule_bodies_nonvacuous :
+  (bounds_of nm_Dashes = Some (2, Some 3) /\ bounds_of nm_ChockFull = Some (3, None) /\
+   bounds_of nm_ThenThan = Some (5, None) /\ bounds_of nm_ToHop = Some (7, None) /\
+   bounds_of nm_ImpliedInstantiatedCompoundNouns = Some (5, None) /\ bounds_of nm_TheHowWhy = Some (3, None)) /\
+  (rule_ok bad_row = false /\
+   let ts := [mktok (mkspan 0 1) 0 1%N 0; mktok (mkspan 1 2) 1 2%N 1; mktok (mkspan 2 3) 0 1%N 2] in
+   run_on_chunk (fun _ _ _ => Ok true) (fun _ _ _ => Ok true) (r_pat bad_row) ts [] = Ok [(0, 3)] /\
+   use_run (slice ts 0 3) (UIdx 3) = Panic PIndex /\ use_run (slice ts 0 3) (UIdx 2) = Ok tt).
+Proof. exact (conj rule_bounds_examples static_test_rejects). Qed.
+
+(* phase 3, (2): the end-to-end model on "I know  the how." (two spaces: one Space(2) token): seven tokens, the dictionary
+   view taken from a table keyed by span start, word-whitespace-word matched twice; premises satisfiable (abs_of keeps spans) *)
+Example C01_plain_english_nonvacuous :
+  let s := map N.of_nat [73; 32; 107; 110; 111; 119; 32; 32; 116; 104; 101; 32; 104; 111; 119; 46] in
+  let table := [(0, hw 0 1); (1, hs 1 2); (2, hw 2 6); (6, hs 6 8); (8, hw 8 11); (11, hs 11 12); (12, hw 12 15)] in
+  (forall t, tspan (abs_of table t) = Lexer.tspan t) /\
+  e2e_spans s = Ok [mkspan 0 1; mkspan 1 2; mkspan 2 6; mkspan 6 8; mkspan 8 11; mkspan 11 12; mkspan 12 15; mkspan 15 16] /\
+  e2e_lint ex_leaf ex_oracle table (PSeq [PFlag F_WORD; PWhitespace; PFlag F_WORD]) s = Ok ([[(0, 3); (4, 7)]], []).
+Proof.
+  cbv zeta. split; [|split; vm_compute; reflexivity].
+  intros t. unfold abs_of. destruct (find _ _); reflexivity.
+Qed.
